@@ -144,9 +144,9 @@ def run(pid, tier):
                 f.write('%s %s %s %d %d %s %d %s\n' % (name, kind, hexs(alpha), lo, hi, ','.join(map(str, ids)), cnt, fp))
     write_plan(w + '/plan.txt', plan)
     stats = collections.Counter()
-    def run_drivers(planfile, pl, idxs, outpath):
+    def run_drivers(planfile, pl, idxs, outpath, exe=exe, tag=''):
         def drv(i):
-            return i, lib.run_driver(exe, [planfile, i, lib.seed(), '%s/g%d.ndjson' % (w, i)], timeout=800)
+            return i, lib.run_driver(exe, [planfile, i, lib.seed(), '%s/g%s%d.ndjson' % (w, tag, i)], timeout=800)
         ok_files = []
         with concurrent.futures.ThreadPoolExecutor(max_workers=6) as ex:
             for i, d in ex.map(drv, idxs):
@@ -163,10 +163,12 @@ def run(pid, tier):
                     rep.violation('sanitizer-report' if d['rc'] in (97, 98) else 'driver-failure', det)
                     continue
                 st = json.loads(d['stdout'].decode().strip().splitlines()[-1])
+                if tag:
+                    st['build'] = tag
                 rep.cov['driver_runs'].append(st)
                 for k in ('strings', 'evaluations', 'nontrivial', 'nt_prefix', 'nt_rollback', 'nt_end'):
                     stats[k] += st[k]
-                ok_files.append('%s/g%d.ndjson' % (w, i))
+                ok_files.append('%s/g%s%d.ndjson' % (w, tag, i))
         with open(outpath, 'w') as o:
             for p in ok_files:
                 with open(p) as f:
@@ -176,9 +178,11 @@ def run(pid, tier):
         longs = gen_long(rep, w, tier)
         pl = list(plan)
         for g, path in sorted(longs.items()):
-            pl.append((g, 'file', [65], 0, 190, LONG_IDS.get(g, [14, 16]), 0, path))
+            pl.append((g, 'file', [65], 0, 1090, LONG_IDS.get(g, [14, 16]), 0, path))
         write_plan(w + '/plan2.txt', pl)
         run_drivers(w + '/plan2.txt', pl, range(len(plan), len(pl)), w + '/long_rec.ndjson')
+        # the same long tokens in a C89 build of the library (no stdbool: scpi_bool_t is an unsigned char there)
+        run_drivers(w + '/plan2.txt', pl, range(len(plan), len(pl)), w + '/long_rec89.ndjson', exe=lib.build('drv_lexer', ['drv_lexer.c'], config='c89'), tag='c89')
         return len(pl) - len(plan)
     lpool = concurrent.futures.ThreadPoolExecutor(max_workers=1)
     ljob = lpool.submit(long_pipeline)
@@ -187,6 +191,7 @@ def run(pid, tier):
     validate(rep, w + '/all.ndjson', 'records', par=3)
     if ljob.result() > 0:
         validate(rep, w + '/long_rec.ndjson', 'long-tokens', par=3)
+        validate(rep, w + '/long_rec89.ndjson', 'long-tokens-c89', par=3)
     lpool.shutdown()
     for j in mcjobs:
         name, r = j.result()
@@ -210,7 +215,7 @@ def run(pid, tier):
                              random_per_group=nrand, model_checking=[dict(cfg=m[0], max_len=(m[1] if q else m[2])) for m in MC])
     rep.cov['rule'] = ('cases = (recogniser, byte string) executions of the real functions: every string up to the listed length over the class alphabet of the group '
                        '(one representative per character class the recogniser distinguishes plus outsiders), each in four embeddings (exact-size buffer cursor 0 / cursor 1, '
-                       'length limit inside a longer buffer, garbage pre-filled token), seeded random strings up to 8 bytes longer and long tokens emitted by TLC from the grammar; '
+                       'length limit inside a longer buffer, garbage pre-filled token), seeded random strings up to 8 bytes longer and long tokens emitted by TLC from the grammar (incl. runs of 255 / 256 / 257 / 512 characters; also in a C89 build of the library); '
                        'non-trivial = in the exact-buffer cursor-0 run the recogniser consumes a non-empty proper prefix, or reports nothing although the first byte can start its token '
                        '(it consumed and rolled back), or its token/cursor reaches the end of the input; distinct = different (recogniser, string), a string of a later group that an '
                        'earlier group already enumerates for the same recogniser is not counted again; counted by the driver')
